@@ -244,7 +244,9 @@ def copy_repo_sources(tmp):
         inc = pl[:-3]
         if (not os.path.exists(inc)) or os.path.getmtime(pl) > os.path.getmtime(inc):
             rc, out, err = run(["perl", pl], timeout=60)
-            if rc == 0:
+            # (in this sandbox two of the three generators cannot run: a perl module and the
+            #  Unicode data files are absent; then the tracked .inc is used as it is)
+            if rc == 0 and out.strip():
                 open(os.path.join(tmp, "src", os.path.basename(inc)), "w").write(out)
 
 
